@@ -8,9 +8,12 @@ package c10
 
 import (
 	"context"
+	"encoding/json"
+	"sort"
 	"runtime"
 	"fmt"
 	"math/rand"
+	"os"
 	"strings"
 	"sync"
 	"sync/atomic"
@@ -48,14 +51,46 @@ type program struct {
 }
 
 type recorder struct {
-	mu sync.Mutex
-	b  *tv.Batch
+	mu   sync.Mutex
+	b    *tv.Batch // observable trace (contract level)
+	hb   *tv.Batch // hook-level trace (implementation level): the observable events (+ client numbers) plus every gated decision point passed
+	over bool      // the run is over (tear-down): nothing more goes into the hook-level trace
 }
 
+// ev records an observable event; the client number "c" only goes into the hook-level trace.
 func (r *recorder) ev(name string, m tv.M) {
 	r.mu.Lock()
 	defer r.mu.Unlock()
+	r.evLocked(name, m)
+}
+
+func (r *recorder) evLocked(name string, m tv.M) {
+	if m == nil {
+		m = tv.M{}
+	}
+	if r.hb != nil && !r.over {
+		o := tv.M{}
+		for k, v := range m {
+			o[k] = v
+		}
+		r.hb.Ev(name, o)
+	}
+	delete(m, "c")
 	r.b.Ev(name, m)
+}
+
+// hook records a gated decision point (verif hook) the component passed, with its arguments.
+func (r *recorder) hook(point string, args []any) {
+	r.mu.Lock()
+	defer r.mu.Unlock()
+	if r.hb == nil || r.over {
+		return
+	}
+	m := tv.M{}
+	for i := 0; i+1 < len(args); i += 2 {
+		m[fmt.Sprint(args[i])] = args[i+1]
+	}
+	r.hb.Ev(point, m)
 }
 
 type result struct {
@@ -65,11 +100,21 @@ type result struct {
 	stuck    int
 }
 
-func runSchedule(b *tv.Batch, prog program, seed int64) result {
+func runSchedule(b, hb *tv.Batch, prog program, seed int64) result {
 	rng := rand.New(rand.NewSource(seed))
-	rec := &recorder{b: b}
+	rec := &recorder{b: b, hb: hb}
 	tr := b.Start(tv.M{"prog": prog, "seed": seed})
-	ctl := sched.New("batcher.*", "reader.take", "queue.exec.enter", "queue.loop.signals", "queue.enqueue.enter")
+	if hb != nil {
+		hb.Start(tv.M{"seed": seed})
+	}
+	gates := []string{"batcher.*", "reader.take", "queue.exec.enter", "queue.loop.signals", "queue.enqueue.enter"}
+	ctl := sched.New(gates...)
+	ctl.OnEvent = func(point string, args []any) {
+		// the hook-level trace holds the gated points (the other queue.* points are passed without a stop)
+		if strings.HasPrefix(point, "batcher.") || point == "reader.take" || point == "queue.exec.enter" || point == "queue.loop.signals" || point == "queue.enqueue.enter" {
+			rec.hook(point, args)
+		}
+	}
 	batcher.VerifHook = func(point string, kv ...any) { ctl.Point(point, kv...) }
 	queue.VerifHook = func(point string, kv ...any) { ctl.Point(point, kv...) }
 	defer func() { batcher.VerifHook = nil; queue.VerifHook = nil }()
@@ -145,13 +190,13 @@ func runSchedule(b *tv.Batch, prog program, seed int64) result {
 				chans[o.S] = ch
 				smu.Unlock()
 				go reader(o.S, o.Kind, ch)
-				rec.ev("sub_call", tv.M{"s": o.S, "kind": o.Kind})
+				rec.ev("sub_call", tv.M{"s": o.S, "kind": o.Kind, "c": ci + 1})
 				c.cur = ctl.Go(fmt.Sprintf("c%d:sub", ci), func() {
 					bc.Subscribe(ctx, ch)
 					smu.Lock()
 					subBeforeClose[o.S] = !closeCalled.Load()
 					smu.Unlock()
-					rec.ev("sub_ret", tv.M{"s": o.S})
+					rec.ev("sub_ret", tv.M{"s": o.S, "c": ci + 1})
 				})
 			case "cancel":
 				c.next++
@@ -181,10 +226,10 @@ func runSchedule(b *tv.Batch, prog program, seed int64) result {
 				nextB++
 				bn := nextB
 				vmu.Unlock()
-				rec.ev("batch_call", tv.M{"n": bn, "key": key, "due": nowTicks() + interval})
+				rec.ev("batch_call", tv.M{"n": bn, "key": key, "due": nowTicks() + interval, "c": ci + 1})
 				c.cur = ctl.Go(fmt.Sprintf("c%d:batch", ci), func() {
 					bc.Batch(key, bn)
-					rec.ev("batch_ret", tv.M{"n": bn})
+					rec.ev("batch_ret", tv.M{"n": bn, "c": ci + 1})
 				})
 			case "adv":
 				c.next++
@@ -193,7 +238,7 @@ func runSchedule(b *tv.Batch, prog program, seed int64) result {
 			case "close":
 				c.next++
 				closeCalled.Store(true)
-				rec.ev("close_call", nil)
+				rec.ev("close_call", tv.M{"c": ci + 1})
 				c.cur = ctl.Go(fmt.Sprintf("c%d:close", ci), func() {
 					bc.Close()
 					// probe: every channel of a subscriber that subscribed before Close was called must be closed by now
@@ -229,7 +274,7 @@ func runSchedule(b *tv.Batch, prog program, seed int64) result {
 						}
 					}
 					smu.Unlock()
-					rec.ev("close_ret", tv.M{"open": open})
+					rec.ev("close_ret", tv.M{"open": open, "c": ci + 1})
 				})
 			}
 		}
@@ -308,7 +353,7 @@ func runSchedule(b *tv.Batch, prog program, seed int64) result {
 	if err == nil {
 		res.stuck = inflight()
 		rec.mu.Lock()
-		b.Ev("stuck", tv.M{"n": res.stuck})
+		rec.evLocked("stuck", tv.M{"n": res.stuck})
 		smu.Lock()
 		for _, s := range openRacing {
 			select {
@@ -322,6 +367,9 @@ func runSchedule(b *tv.Batch, prog program, seed int64) result {
 		smu.Unlock()
 		rec.mu.Unlock()
 	}
+	rec.mu.Lock()
+	rec.over = true
+	rec.mu.Unlock()
 	// tear down
 	ctl.Shutdown()
 	close(stop)
@@ -337,6 +385,58 @@ func runSchedule(b *tv.Batch, prog program, seed int64) result {
 	case <-time.After(2 * time.Second):
 	}
 	return res
+}
+
+// lookAhead adds to every batch_call record of a hook-level trace two fields computed from the same trace.  "pre": for every
+// reader that receives the call's value, the value that reader receives just before it.  Which of several due items the
+// processor pops is only visible later in what the readers receive; every reader receives in pop order, so the model pops
+// those values earlier in any case.  "free": no reader ever receives the value and its key is not batched again - such items
+// are interchangeable once due, the model pops the first of them by (time, value).  Both only prune TLC's search
+// (TraceBatchImpl.tla).
+func lookAhead(lines [][]byte) [][]byte {
+	type rec struct {
+		Ev  string `json:"ev"`
+		S   int    `json:"s"`
+		V   int    `json:"v"`
+		N   int    `json:"n"`
+		Key string `json:"key"`
+	}
+	last := map[int]int{}
+	pre := map[int]map[int]bool{}
+	seen := map[int]bool{}
+	lastCall := map[string]int{}
+	recs := make([]rec, len(lines))
+	for i, l := range lines {
+		_ = json.Unmarshal(l, &recs[i])
+		if r := recs[i]; r.Ev == "batch_call" {
+			lastCall[r.Key] = i
+		} else if r.Ev == "recv" {
+			seen[r.V] = true
+			if p, ok := last[r.S]; ok {
+				if pre[r.V] == nil {
+					pre[r.V] = map[int]bool{}
+				}
+				pre[r.V][p] = true
+			}
+			last[r.S] = r.V
+		}
+	}
+	out := make([][]byte, len(lines))
+	for i, l := range lines {
+		out[i] = l
+		if recs[i].Ev != "batch_call" {
+			continue
+		}
+		ps := []int{}
+		for p := range pre[recs[i].N] {
+			ps = append(ps, p)
+		}
+		sort.Ints(ps)
+		j, _ := json.Marshal(ps)
+		free := !seen[recs[i].N] && lastCall[recs[i].Key] == i
+		out[i] = []byte(fmt.Sprintf(`%s,"pre":%s,"free":%v}`, l[:len(l)-1], j, free))
+	}
+	return out
 }
 
 // stressSubscribeVsClose: ungated rounds of Subscribe racing Close (there is no decision point inside Subscribe's
@@ -446,18 +546,10 @@ func TestCheck(t *testing.T) {
 		}
 	}()
 	rng := rand.New(rand.NewSource(ev.Seed()))
-
-	mc := tlc.Run(tlc.Opts{Dir: "Batcher", Module: "MCBatcher", Config: ev.Pick("MC_small.cfg", "MC_big.cfg"), Workers: 16,
-		Timeout: ev.Pick(4*time.Minute, 40*time.Minute), HeapMB: 12000, Args: []string{"-noGenerateSpecTE"}})
-	fmt.Printf("MC Batcher: ok=%v generated=%d distinct=%d depth=%d wall=%s %s\n", mc.OK, mc.Generated, mc.Distinct, mc.Depth, mc.Wall.Round(time.Millisecond), mc.What)
-	if !mc.OK {
-		e.Inconclusive("model check of Batcher.tla did not pass: " + mc.What + "\n" + mc.Tail(2000))
-	}
-	e.Set("states", mc.Distinct)
-	e.Set("transitions", mc.Generated)
-	e.Set("checker_cmd", mc.Cmd)
+	driveStart := time.Now()
 
 	b := &tv.Batch{}
+	hb := &tv.Batch{}
 	var results []result
 	var progs []program
 	S := func(s int, k string) opSpec { return opSpec{Op: "sub", S: s, Kind: k} }
@@ -492,7 +584,7 @@ func TestCheck(t *testing.T) {
 		if p.Prefix == nil {
 			p.Prefix = []string{}
 		}
-		r := runSchedule(b, p, seed)
+		r := runSchedule(b, hb, p, seed)
 		results = append(results, r)
 		progs = append(progs, p)
 		if r.err != nil {
@@ -516,17 +608,61 @@ func TestCheck(t *testing.T) {
 	sb := &tv.Batch{}
 	stressSubscribeVsClose(sb, ev.Pick(3000, 60000))
 	fmt.Printf("executed %d schedules (%d events), %d could not be driven to the end\n", b.Len(), b.Lines(), inconcl)
+	fmt.Printf("timing: driving the schedules took %s\n", time.Since(driveStart).Round(time.Millisecond))
 	if inconcl > b.Len()/20 {
 		e.Inconclusive(fmt.Sprintf("%d of %d schedules could not be driven to quiescence", inconcl, b.Len()))
 	}
 	jb := &tv.Batch{}
+	jhb := &tv.Batch{}
 	var idx []int
 	for i, r := range results {
 		if r.err == nil {
 			jb.AppendTrace(b.Trace(r.trace))
+			jhb.AppendTrace(lookAhead(hb.Trace(r.trace)))
 			idx = append(idx, i)
 		}
 	}
+	// the exhaustive model check and the model-binding validation run while the contract validation runs (all TLC, after the
+	// driving: the scheduler's quiescence detection must not see busy harness goroutines)
+	// two configurations per tier: a stalled subscriber wedging execute (small) / with a prompt one next to it (small2);
+	// thorough: more values (big) and a clock with a replaced key (big2)
+	mcCfgs := ev.Pick([]string{"MC_small.cfg", "MC_small2.cfg"}, []string{"MC_big.cfg", "MC_big2.cfg"})
+	mcCh := make(chan tlc.Result, len(mcCfgs))
+	for _, cfg := range mcCfgs {
+		go func() {
+			mcCh <- tlc.Run(tlc.Opts{Dir: "Batcher", Module: "MCBatcher", Config: cfg, Workers: 8,
+				Timeout: ev.Pick(4*time.Minute, 40*time.Minute), HeapMB: ev.Pick(4000, 12000), Args: []string{"-noGenerateSpecTE"}})
+		}()
+	}
+	type hval struct {
+		missing []int
+		res     tlc.Result
+	}
+	hCh := make(chan hval, 1)
+	go func() {
+		m, r := tv.ValidateDoneChunked(tlc.Opts{Dir: "Batcher", Module: "TraceBatchImpl", Config: "TraceBatchImpl.cfg", Workers: ev.Pick(8, 16), Timeout: ev.Pick(6*time.Minute, 40*time.Minute), HeapMB: ev.Pick(4000, 8000)}, jhb)
+		hCh <- hval{m, r}
+	}()
+	defer func() {
+		var states, transitions int64
+		cmd := ""
+		for range mcCfgs {
+			mc := <-mcCh
+			fmt.Printf("MC Batcher: ok=%v generated=%d distinct=%d depth=%d wall=%s %s %s\n", mc.OK, mc.Generated, mc.Distinct, mc.Depth, mc.Wall.Round(time.Millisecond), mc.Cmd, mc.What)
+			if !mc.OK {
+				e.Inconclusive("model check of Batcher.tla did not pass: " + mc.What + "\n" + mc.Tail(2000))
+			}
+			states += mc.Distinct
+			transitions += mc.Generated
+			if cmd != "" {
+				cmd += " ; "
+			}
+			cmd += mc.Cmd
+		}
+		e.Set("states", states)
+		e.Set("transitions", transitions)
+		e.Set("checker_cmd", cmd)
+	}()
 	nGated := jb.Len()
 	for i := 0; i < sb.Len(); i++ {
 		jb.AppendTrace(sb.Trace(i))
@@ -557,6 +693,21 @@ func TestCheck(t *testing.T) {
 			return -1
 		}, r.Why), " ", "-")
 		e.Violation(key, r.Why, tv.M{"program": progs[i], "schedule": results[i].schedule, "trace": jb.TraceStrings(r.Trace), "at": r.At})
+	}
+	// binding of the implementation-shaped model: hook-level traces must be behaviours of Batcher.tla (drift, not verdict)
+	hv := <-hCh
+	hmissing, hres := hv.missing, hv.res
+	fmt.Printf("TLC model-binding validation (hook-level traces vs Batcher.tla): ok=%v traces=%d events=%d not-explained=%d distinct=%d wall=%s %s\n", hres.OK, jhb.Len(), jhb.Lines(), len(hmissing), hres.Distinct, hres.Wall.Round(time.Millisecond), hres.What)
+	e.Set("impl_traces_validated", int64(jhb.Len()))
+	e.Set("impl_drift_traces", int64(len(hmissing)))
+	e.Set("drift", len(hmissing) > 0 || !hres.OK)
+	if !hres.OK {
+		fmt.Printf("DRIFT property=C10 the model-binding validation did not run: %s %s\n", hres.What, strings.ReplaceAll(hres.Tail(600), "\n", " | "))
+	} else if len(hmissing) > 0 {
+		fmt.Printf("DRIFT property=C10 %d hook-level traces are not behaviours of Batcher.tla (model and code diverge; not a violation by itself), first: %v\n", len(hmissing), jhb.TraceStrings(hmissing[0]))
+	}
+	if os.Getenv("VERIF_DUMP_HOOK") != "" {
+		_ = os.WriteFile(os.Getenv("VERIF_DUMP_HOOK"), jhb.Bytes(), 0o644)
 	}
 	selfTest(e)
 }
